@@ -268,6 +268,8 @@ def main(prop: str, tier: str) -> int:
                                    'EventuallyTold holds under weak fairness; with the pinned tree\'s '
                                    'IdleArmAfterDiff the invariant fails as it must')
 
+    from .. import syncrun as _syncrun
+    _syncrun.FETCH_SUBJECT[0] = prop == 'C04'
     traces, meta = [], []
     # 2. spec -> code
     nsim = 250 if quick else 2500
@@ -421,6 +423,35 @@ def main(prop: str, tier: str) -> int:
     # had before - also when the incarnations follow each other within one second
     if prop == 'C04':
         validity_rounds(run, 700 if quick else 6000)
+        # the name a session has selected is given to another mailbox meanwhile
+        for box, others in (('INBOX', [('rename', 'INBOX', 'Old'), ('append', 'INBOX', 2, ())]),
+                            ('Box', [('delete', 'Box'), ('create', 'Box'), ('append', 'Box', 2, ())]),
+                            ('Box', [('rename', 'Box', 'Old'), ('create', 'Box'), ('append', 'Box', 1, ())]),
+                            ('Box', [('rename', 'Box', 'Old'), ('rename', 'INBOX', 'Box')])):
+            for acmd in (('fetch', True, '1:*', False), ('fetch', False, '1:*', False),
+                         ('fetch', True, '101:102', True)):
+                sr = SyncRun(init_flags=((), (), ()), sessions=['a', 'b'], controlled=False,
+                             claim_recent=True, box_msgs={'Box': 2})
+                log = []
+                try:
+                    for c in (('select', box), ('fetch', False, '1:*', False)):
+                        sr.issue('a', c)
+                        sr.finish('a')
+                    for c in others:
+                        sr.issue('b', c)
+                        sr.finish('b')
+                        log.append(('b', c))
+                    if sr.can_issue('a'):
+                        sr.issue('a', acmd)
+                        sr.finish('a')
+                        log.append(('a', acmd))
+                    if sr.can_issue('a'):
+                        sr.issue('a', ('noop',))
+                        sr.finish('a')
+                finally:
+                    sr.close()
+                traces.append(sr.events)
+                meta.append({'kind': 'name-rebound', 'box': box, 'commands': log})
 
     # 3b. C17: life-cycle histories from the reference model RecentModel.tla (every edge)
     if prop == 'C17':
@@ -705,6 +736,12 @@ def classify(prop, clause, events, line, detail='', backend='dict'):
         return 'StaleRecentPick' if stale_pick(events[:line], int(detail)) else None
     if clause == 'C02_ConvergedFlags' and backend == 'maildir' and seen_race(events, line):
         return 'MaildirFetchSeenRace'
+    if clause == 'C04_UidDenotesOneMessage':
+        ev = events[line - 1]
+        # the name the session selected now denotes ANOTHER mailbox object (renamed away,
+        # deleted and created again) and the server followed the name
+        if ev.get('bound') and ev.get('nowobj') and ev['bound'] != ev['nowobj']:
+            return 'SelectionBoundToName'
     return None
 
 
